@@ -84,7 +84,15 @@ class ManifestMachine(FormatMachine):
         return {"compose": observe_compose(obj), "payload": copy.deepcopy(getattr(obj, self.ATTR))}
 
     def validity(self, s):
-        return compose_validity(s.model["compose"])
+        vv, why = compose_validity(s.model["compose"])
+        if vv == VALID and self.ATTR == "extra_files":
+            # the documented size is an integer: a manifest holding anything else (a float, inf) may be written or refused
+            for arches in s.model["payload"].values():
+                for items in arches.values():
+                    for it in items:
+                        if isinstance(it.get("size"), bool) or not isinstance(it.get("size"), int):
+                            return UNSPEC, "extra_files.size:not-an-integer"
+        return vv, why
 
     def expected_loaded(self, s):
         return {"compose": norm_compose(s.model["compose"]), "payload": copy.deepcopy(s.model["payload"])}
@@ -554,6 +562,8 @@ class ExtraFilesMachine(ManifestMachine):
             return "fail", "path:absolute"
         if not isinstance(checksums, dict):
             return "fail", "checksums:type"
+        if isinstance(size, bool) or not isinstance(size, int):
+            return UNSPEC, "size:not-an-integer"        # the documented size is an integer; nothing is said about other values
         payload.setdefault(variant, {}).setdefault(arch, []).append({"file": path, "size": size, "checksums": copy.deepcopy(checksums)})
         return "ok", payload
 
